@@ -23,6 +23,12 @@ CLAIMED["C18"] = dict(
     technique="CBMC function contracts (dfcc, enforce + replace-call-with-contract) on extracted C, cvc5/SAT back ends, full state space",
     ref="6/C18")
 
+CLAIMED["C05"] = dict(
+    text="Proof (RING mode): dot, 2-D/3-D cross (cross, %, %=), quaternion product (*, *=), Matrix22/33/44 x (operator*, *=, static multiply 2- and 3-argument incl. aliased out-parameter), Vec x Matrix (operator*, *=, multVecMatrix, multDirMatrix; homogeneous and plain), outerProduct 3x3/4x4, transpose/transposed, trace, minorOf/fastMinor and determinant are extracted at T = unsigned int and checked against textbook sums written as index loops; lemmas det(AB)=det(A)det(B) (2,3), det(A^T)=det(A), cofactor expansion by minorOf along rows/columns = determinant(). Obligations are polynomial identities over Z/2^32 discharged by z3's sum-of-monomials normaliser on cbmc's SMT output; all other obligations (frame, pointers) by cbmc.",
+    note="Trusted: clang AST + cxx2c (differentially validated), cbmc 6.11 SMT generation, z3-new 5.1 som rewriter. Transfer from the unsigned instantiation to float/double: mechanical same-shape check of the emitted bodies + the classical forward-error bound, which is NOT machine-checked. The Matrix44::determinant zero-skip guards (x != 0.) are rewritten to integer tests after the equivalence is discharged by z3 on cbmc's own definitions.",
+    technique="CBMC function contracts (dfcc) on extracted C at T=unsigned, polynomial identities via cbmc --z3 --outfile + z3 sum-of-monomials tactic",
+    ref="6/C05")
+
 NA = {
 }
 
